@@ -19,6 +19,13 @@ class Prop(C02):
             cases.append(R.gen_history(rng, rng.randint(5, 40), evpn=(k % 9 == 8), deferral=(k % 3 == 0), limits=(k % 4 == 1)))
         return cases
 
+    def corpus_cases(self):
+        import glob, json, os
+        out = []
+        for f in sorted(glob.glob(os.path.join(os.path.dirname(os.path.dirname(os.path.abspath(__file__))), 'corpus', 'C06', '*.json'))):
+            out.append(R.case_from_json(json.load(open(f))['case']))
+        return out
+
     def run_impl(self, cases, tier):
         return R.run_impl('C06', cases, release=False)
 
@@ -55,9 +62,10 @@ class Prop(C02):
                 if ch[0] in loc and loc[ch[0]][1] != ch[1]:
                     return 'step %d: change carries id %d for prefix %d whose id is %d' % (k, ch[1], ch[0], loc[ch[0]][1])
             if o[0] == 'enddef':
-                if sorted((ch[0], [tuple(map(tuple_, p)) for p in ch[5]]) for ch in chs) != \
-                   sorted((x[0], [tuple(map(tuple_, p)) for p in x[5]]) for x in st[0]):
-                    return 'step %d: end_deferral did not announce exactly the held prefixes' % k
+                # every prefix held is announced (with an empty list when nothing is eligible)
+                held = sorted(d[0] for d in st[1])
+                if sorted(ch[0] for ch in chs) != held:
+                    return 'step %d: end_deferral announced prefixes %s, the RIB holds %s' % (k, sorted(ch[0] for ch in chs), held)
             if deferring:
                 continue
             want_full = {n: [(p[0], p[1], p[2], tuple(p[3])) for p in x[5]] for n, x in loc.items()}
